@@ -3,6 +3,7 @@ C06 — Resuming the interleaved scheduler yields the suffix of the uninterrupte
 -/
 import KDVerif.Props.C04
 import KDVerif.Lemmas.InterleavedResume
+import KDVerif.Lemmas.C06Extra
 
 namespace KDVerif.C06
 open KDVerif.Interleaved
@@ -176,5 +177,457 @@ example : ctor ⟨5, 5, 2, true, none, .epochs 3, []⟩ (.epoch 1) = .ok ⟨1, 2
   constructor
   · rfl
   · simp [beforeC]
+
+/-! ## Which checkpoints the constructor accepts (the `NotImplementedError` clause) -/
+
+/-- **accepted ⇒ on an epoch boundary** (all four ways of giving a checkpoint: none / `start_epoch` /
+    `start_update` / `start_sample`): whatever the constructor accepts is the epoch-boundary checkpoint of the
+    epoch `st.epoch` it stores — `st.update = updates_per_epoch · st.epoch`, `st.sample = samples_per_epoch · st.epoch`
+    — and it is the very checkpoint that `start_epoch = st.epoch` gives. -/
+theorem ctor_accepted_is_epoch_boundary (a : Args) (sa : StartArg) (st : Start) (h : ctor a sa = .ok st) :
+    st = ⟨st.epoch, upe a * st.epoch, spe a * st.epoch⟩ ∧ ctor a (.epoch st.epoch) = .ok st := by
+  have key : ∀ e, ctor a (.epoch e) = .ok st → st = ⟨st.epoch, upe a * st.epoch, spe a * st.epoch⟩ ∧
+      ctor a (.epoch st.epoch) = .ok st := by
+    intro e he
+    have hst := ctor_epoch_checkpoint a e st he
+    have hep : st.epoch = e := by rw [hst]
+    rw [hep]
+    exact ⟨hst, he⟩
+  cases sa with
+  | none =>
+    obtain ⟨hg, hc, hs⟩ := C04.ctor_ok a _ st h
+    simp only [startOf, Except.ok.injEq] at hs
+    apply key 0
+    unfold ctor
+    simp only [hg, hc, Bool.and_self, if_true, startOf, Nat.mul_zero]
+    rw [← hs]
+  | epoch e => exact key e h
+  | update u => exact key _ (ctor_update_is_epoch a u st h)
+  | sample s => exact key _ (ctor_sample_is_epoch a s st h)
+
+/-- `start_epoch` is never rejected: a configuration the constructor accepts without a checkpoint is accepted
+    with every `start_epoch = e`, with the counters of that epoch boundary -/
+theorem ctor_epoch_always_accepted (a : Args) (s0 : Start) (h0 : ctor a .none = .ok s0) (e : Nat) :
+    ctor a (.epoch e) = .ok ⟨e, upe a * e, spe a * e⟩ := by
+  obtain ⟨hg, hc, _⟩ := C04.ctor_ok a _ s0 h0
+  unfold ctor
+  simp only [hg, hc, Bool.and_self, if_true, startOf]
+
+/-- **`start_update = u`: accepted iff `drop_last` and `u` is a multiple of `updates_per_epoch`; every other `u`
+    gets the explicit `NotImplementedError`** (never an assertion, never a silently different checkpoint).
+    The accepted checkpoint is `(u / upe, u, u · batch_size)`, as the python code computes it. -/
+theorem ctor_update_outcome (a : Args) (s0 : Start) (h0 : ctor a .none = .ok s0) (u : Nat) :
+    ((∃ st, ctor a (.update u) = .ok st) ↔ (a.dropLast = true ∧ u % upe a = 0)) ∧
+    (ctor a (.update u) = .error .notImplemented ↔ ¬ (a.dropLast = true ∧ u % upe a = 0)) ∧
+    (∀ st, ctor a (.update u) = .ok st →
+      st = ⟨u / upe a, u, u * a.B⟩ ∧ st.update = upe a * st.epoch ∧ st.sample = spe a * st.epoch) := by
+  obtain ⟨hg, hc, _⟩ := C04.ctor_ok a _ s0 h0
+  have hctor : ctor a (.update u) =
+      if (u % upe a != 0 || !a.dropLast) = true then .error .notImplemented
+      else .ok ⟨u / upe a, u, u / upe a * spe a⟩ := by
+    unfold ctor
+    simp only [hg, hc, Bool.and_self, if_true, startOf]
+  refine ⟨?_, ?_, ?_⟩
+  · rw [hctor]
+    by_cases hd : a.dropLast = true <;> by_cases hm : u % upe a = 0 <;> simp [hd, hm]
+  · rw [hctor]
+    by_cases hd : a.dropLast = true <;> by_cases hm : u % upe a = 0 <;> simp [hd, hm]
+  · intro st hst
+    have hb := (ctor_accepted_is_epoch_boundary a _ st hst).1
+    obtain ⟨hBpos, _, _, _⟩ := C04.ctor_ok_geometry a _ st hst
+    rw [hctor] at hst
+    by_cases hcnd : (u % upe a != 0 || !a.dropLast) = true
+    · simp [hcnd] at hst
+    · simp only [hcnd, Bool.false_eq_true, if_false, Except.ok.injEq] at hst
+      simp only [Bool.or_eq_true, bne_iff_ne, ne_eq, Bool.not_eq_true', not_or, Decidable.not_not,
+        Bool.not_eq_false] at hcnd
+      have hdvd := spe_mod_B_of_dropLast a _ s0 h0 hcnd.2
+      have hub := upe_mul_B_of_dvd a hBpos hdvd
+      have hu : u = upe a * (u / upe a) := by
+        have := Nat.div_add_mod u (upe a)
+        omega
+      have hsmp : u / upe a * spe a = u * a.B := by
+        calc u / upe a * spe a = u / upe a * (upe a * a.B) := by rw [hub]
+          _ = (upe a * (u / upe a)) * a.B := by rw [← Nat.mul_assoc, Nat.mul_comm (u / upe a)]
+          _ = u * a.B := by rw [← hu]
+      refine ⟨?_, ?_, ?_⟩
+      · rw [← hst, hsmp]
+      · rw [hb]
+      · rw [hb]
+
+/-- **`start_sample = s`: accepted iff `drop_last` and `s` is a multiple of `samples_per_epoch`**; an `s` that is
+    not a multiple of `batch_size` fails the constructor's assertion; every other `s` (on a batch boundary but not
+    on an epoch boundary, or `drop_last = False`) gets the explicit `NotImplementedError`. -/
+theorem ctor_sample_outcome (a : Args) (s0 : Start) (h0 : ctor a .none = .ok s0) (s : Nat) :
+    ((∃ st, ctor a (.sample s) = .ok st) ↔ (a.dropLast = true ∧ s % spe a = 0)) ∧
+    (ctor a (.sample s) = .error .notImplemented ↔ (s % a.B = 0 ∧ ¬ (a.dropLast = true ∧ s % spe a = 0))) ∧
+    (ctor a (.sample s) = .error .assertion ↔ s % a.B ≠ 0) ∧
+    (∀ st, ctor a (.sample s) = .ok st →
+      st = ⟨s / spe a, s / a.B, s⟩ ∧ st.update = upe a * st.epoch ∧ st.sample = spe a * st.epoch) := by
+  obtain ⟨hg, hc, _⟩ := C04.ctor_ok a _ s0 h0
+  obtain ⟨hBpos, _, hS, _⟩ := C04.ctor_ok_geometry a _ s0 h0
+  have hctor : ctor a (.sample s) =
+      if (s % a.B != 0) = true then .error .assertion
+      else if ((s / a.B) % upe a != 0 || !a.dropLast) = true then .error .notImplemented
+      else .ok ⟨(s / a.B) / upe a, s / a.B, s⟩ := by
+    unfold ctor
+    simp only [hg, hc, Bool.and_self, if_true, startOf]
+  -- with `drop_last`, an epoch is a whole number of batches
+  have harith : a.dropLast = true → s % a.B = 0 → ((s / a.B) % upe a = 0 ↔ s % spe a = 0) := by
+    intro hd hsB
+    have hdvd := spe_mod_B_of_dropLast a _ s0 h0 hd
+    exact c06x_boundary_arith a.B (upe a) (spe a) s hBpos (upe_mul_B_of_dvd a hBpos hdvd) hsB
+  have hBdvd : a.dropLast = true → s % spe a = 0 → s % a.B = 0 := by
+    intro hd hsS
+    have hdvd := spe_mod_B_of_dropLast a _ s0 h0 hd
+    have h1 : a.B ∣ spe a := Nat.dvd_of_mod_eq_zero hdvd
+    have h2 : spe a ∣ s := Nat.dvd_of_mod_eq_zero hsS
+    exact Nat.mod_eq_zero_of_dvd (Nat.dvd_trans h1 h2)
+  refine ⟨?_, ?_, ?_, ?_⟩
+  · rw [hctor]
+    by_cases hd : a.dropLast = true
+    · by_cases hsB : s % a.B = 0
+      · have := harith hd hsB
+        by_cases hm : (s / a.B) % upe a = 0
+        · have hsS := this.mp hm
+          simp [hd, hsB, hm, hsS]
+        · have hsS : ¬ s % spe a = 0 := fun h => hm (this.mpr h)
+          simp [hd, hsB, hm, hsS]
+      · have hsS : ¬ s % spe a = 0 := fun h => hsB (hBdvd hd h)
+        simp [hd, hsB, hsS]
+    · by_cases hsB : s % a.B = 0 <;> simp [hd, hsB]
+  · rw [hctor]
+    by_cases hd : a.dropLast = true
+    · by_cases hsB : s % a.B = 0
+      · have := harith hd hsB
+        by_cases hm : (s / a.B) % upe a = 0
+        · have hsS := this.mp hm
+          simp [hd, hsB, hm, hsS]
+        · have hsS : ¬ s % spe a = 0 := fun h => hm (this.mpr h)
+          simp [hd, hsB, hm, hsS]
+      · simp [hd, hsB]
+    · by_cases hsB : s % a.B = 0 <;> simp [hd, hsB]
+  · rw [hctor]
+    by_cases hsB : s % a.B = 0
+    · by_cases hcnd : ((s / a.B) % upe a != 0 || !a.dropLast) = true <;> simp [hsB, hcnd]
+    · simp [hsB]
+  · intro st hst
+    have hb := (ctor_accepted_is_epoch_boundary a _ st hst).1
+    refine ⟨?_, by rw [hb], by rw [hb]⟩
+    have hsmp : st.sample = s := by
+      rw [hctor] at hst
+      by_cases hsB : (s % a.B != 0) = true
+      · simp [hsB] at hst
+      · by_cases hcnd : ((s / a.B) % upe a != 0 || !a.dropLast) = true
+        · simp [hsB, hcnd] at hst
+        · simp only [hsB, hcnd, Bool.false_eq_true, if_false, Except.ok.injEq] at hst
+          rw [← hst]
+    have hupd : st.update = s / a.B := by
+      rw [hctor] at hst
+      by_cases hsB : (s % a.B != 0) = true
+      · simp [hsB] at hst
+      · by_cases hcnd : ((s / a.B) % upe a != 0 || !a.dropLast) = true
+        · simp [hsB, hcnd] at hst
+        · simp only [hsB, hcnd, Bool.false_eq_true, if_false, Except.ok.injEq] at hst
+          rw [← hst]
+    have hsE : s = spe a * st.epoch := by rw [← hsmp, hb]
+    have hep : st.epoch = s / spe a := by
+      rw [hsE, Nat.mul_div_cancel_left _ hS]
+    rw [hb]
+    congr 1
+    · rw [hb] at hupd; exact hupd
+    · rw [hb] at hsmp; exact hsmp
+
+/-- the three outcomes of `start_sample` all occur: N=8, B=2, drop_last ⇒ `samples_per_epoch = 8`:
+    `s = 16` is accepted as epoch 2 / update 8, `s = 6` (a batch boundary inside an epoch) is a
+    `NotImplementedError`, `s = 5` fails the assertion; `start_update = 8` is accepted, `start_update = 3` and
+    any `start_update` without `drop_last` are `NotImplementedError`s -/
+example :
+    ctor ⟨8, 8, 2, true, none, .epochs 5, []⟩ (.sample 16) = .ok ⟨2, 8, 16⟩ ∧
+    ctor ⟨8, 8, 2, true, none, .epochs 5, []⟩ (.sample 6) = .error .notImplemented ∧
+    ctor ⟨8, 8, 2, true, none, .epochs 5, []⟩ (.sample 5) = .error .assertion ∧
+    ctor ⟨8, 8, 2, true, none, .epochs 5, []⟩ (.update 8) = .ok ⟨2, 8, 16⟩ ∧
+    ctor ⟨8, 8, 2, true, none, .epochs 5, []⟩ (.update 3) = .error .notImplemented ∧
+    ctor ⟨8, 8, 2, false, none, .epochs 5, []⟩ (.update 0) = .error .notImplemented :=
+  ⟨rfl, rfl, rfl, rfl, rfl, rfl⟩
+
+/-! ## Resume = THE suffix after the checkpoint, for every way of giving the checkpoint -/
+
+/-- **C06, the stream clause with no assumption on the main sampler's indices** (strengthens `resume_is_suffix`:
+    every way of giving the checkpoint, the trivial checkpoint 0 included, and the prefix pinned).
+    For every argument set the constructor accepts, every checkpoint argument `sa` (none / `start_epoch` /
+    `start_update` / `start_sample`) it accepts and that lies strictly before the budget, every main sampler that
+    yields `len(main_sampler)` indices per epoch and every side samplers: both loops end, and the resumed stream is
+    the uninterrupted stream cut at its FIRST `set_epoch(st'.epoch)`:
+    `resumed = uninterrupted.dropWhile (· ≠ set_epoch(st'.epoch))` — the same main indices with the same epoch
+    numbers, the same side passes at the same positions, the same end. What is cut off (`pre`) announces exactly the
+    epochs `0, …, st'.epoch - 1` and, for `st'.epoch > 0`, is the complete stream of the same configuration run with
+    the budget `epochs = st'.epoch`. -/
+theorem resume_stream_is_the_suffix (a : Args) (sa : StartArg) (s0 st' : Start)
+    (hctor0 : ctor a .none = .ok s0) (hctor : ctor a sa = .ok st')
+    (main : Nat → List Nat) (hmain : ∀ e, (main e).length = a.N) (side : Nat → Nat → List Nat)
+    (hbefore : beforeC a.budget st'.epoch st'.update st'.sample) :
+    ∃ (evs evs' pre : List Ev) (n0 : Nat),
+      (∀ fuel, n0 < fuel → trainLoop a main side fuel (initSt s0) = some evs) ∧
+      (∀ fuel, n0 < fuel → trainLoop a main side fuel (initSt st') = some evs') ∧
+      evs = pre ++ evs' ∧
+      evs'.head? = some (Ev.setEpoch st'.epoch) ∧
+      evs' = evs.dropWhile (fun ev => ev != Ev.setEpoch st'.epoch) ∧
+      epochsOf pre = List.range st'.epoch ∧
+      (0 < st'.epoch → ∀ fuel, n0 < fuel →
+        trainLoop (c06x_withEpochs a st'.epoch) main side fuel (initSt s0) = some pre) := by
+  obtain ⟨hst, _⟩ := ctor_accepted_is_epoch_boundary a sa st' hctor
+  obtain ⟨hB, _, hS, hSN⟩ := C04.ctor_ok_geometry a _ _ hctor
+  have hs0 : s0 = ⟨0, 0, 0⟩ := by
+    have := (C04.ctor_ok a _ s0 hctor0).2.2
+    simp only [startOf, Except.ok.injEq] at this
+    exact this.symm
+  subst hs0
+  have hmain' : ∀ e, spe a ≤ (main e).length := fun e => by rw [hmain e]; exact hSN
+  generalize hE : st'.epoch = e' at hst hbefore ⊢
+  subst hst
+  simp only at hbefore ⊢
+  obtain ⟨evs, evs', pre, hl0, hl', hsplit, h1, h5⟩ := c06x_resume_l1_stream a main side hB hS e' hbefore
+  have ht0 := trainLoop_of_l1 a main side hB hS hmain' _ _ _ hl0
+  have ht' := trainLoop_of_l1 a main side hB hS hmain' _ _ _ hl'
+  obtain ⟨body, hbody⟩ := c06x_trainLoop_head a main side _ _ _ (ht' _ (Nat.lt_succ_self _))
+  have hE : (initSt ⟨e', upe a * e', spe a * e'⟩).epoch = e' := rfl
+  rw [hE] at hbody
+  refine ⟨evs, evs', pre,
+    max (meas a (l1Start main ⟨0, 0, 0⟩)) (meas a (l1Start main ⟨e', upe a * e', spe a * e'⟩)),
+    fun fuel hf => ht0 fuel (by omega), fun fuel hf => ht' fuel (by omega), hsplit, by rw [hbody]; rfl, ?_, h1, ?_⟩
+  · rw [hsplit, hbody, c06x_dropWhile_of_split pre body _ h1]
+  · intro hpos fuel hf
+    exact trainLoop_of_l1 (c06x_withEpochs a e') main side hB hS hmain' _ _ _ (h5 hpos) fuel (by omega)
+
+/-- non-vacuity of `resume_stream_is_the_suffix` at the trivial checkpoint: `start_update = 0` (with drop_last) is
+    accepted as `(0, 0, 0)`, lies before the budget, and "resuming" from it is the run itself (`pre = []`);
+    the non-trivial checkpoint `(1, 2, 4)` of the same configuration is evaluated in the example after
+    `resume_is_the_suffix_after_checkpoint` -/
+example :
+    let a : Args := ⟨5, 5, 2, true, none, .updates 5, [⟨none, some 3, none, none, 2, 3⟩]⟩
+    let main : Nat → List Nat := fun e => if e % 2 = 0 then [0, 1, 2, 3, 4] else [4, 3, 2, 1, 0]
+    let side : Nat → Nat → List Nat := fun _ u => [u % 3, 1]
+    ctor a (.update 0) = .ok ⟨0, 0, 0⟩ ∧ beforeC a.budget 0 0 0 ∧
+    (trainLoop a main side 10 (initSt ⟨0, 0, 0⟩)).map (fun evs => evs.dropWhile (fun ev => ev != Ev.setEpoch 0))
+      = trainLoop a main side 10 (initSt ⟨0, 0, 0⟩) ∧
+    (trainLoop a main side 10 (initSt ⟨0, 0, 0⟩)).map List.length = some 15 := by
+  refine ⟨rfl, by simp [beforeC], by decide, by decide⟩
+
+/-- **All facts about a resume, in one statement** (the theorems below are its readable parts).
+    Domain: any argument set the constructor accepts (`hctor0`), any checkpoint argument `sa` — none, `start_epoch`,
+    `start_update` or `start_sample` — that the constructor accepts (`hctor`; by `ctor_accepted_is_epoch_boundary` it
+    is then on an epoch boundary, `st'.epoch = 0` included) and that lies strictly before the budget (`hbefore`), any
+    main sampler that yields `len(main_sampler)` indices of its data source per epoch (`hmain`, `hmainlt`: as in
+    C04), any side samplers. -/
+theorem resume_checkpoint_facts (a : Args) (sa : StartArg) (s0 st' : Start)
+    (hctor0 : ctor a .none = .ok s0) (hctor : ctor a sa = .ok st')
+    (main : Nat → List Nat) (hmain : ∀ e, (main e).length = a.N)
+    (hmainlt : ∀ e x, x ∈ main e → x < a.mainDsLen) (side : Nat → Nat → List Nat)
+    (hbefore : beforeC a.budget st'.epoch st'.update st'.sample) :
+    ∃ (evs evs' pre : List Ev) (fin : St) (n0 : Nat),
+      -- both loops end, with one stream each
+      (∀ fuel, n0 < fuel → trainLoop a main side fuel (initSt s0) = some evs) ∧
+      (∀ fuel, n0 < fuel → trainLoop a main side fuel (initSt st') = some evs') ∧
+      -- the uninterrupted stream is `pre` followed by the resumed stream
+      evs = pre ++ evs' ∧
+      -- `pre` is the part before the checkpoint:
+      epochsOf pre = List.range st'.epoch ∧
+      countMain a.mainDsLen pre = st'.sample ∧ st'.sample = spe a * st'.epoch ∧
+      countFull a.mainDsLen pre = st'.update ∧ st'.update = upe a * st'.epoch ∧
+      mainProj a.mainDsLen pre = epochConcat a main 0 st'.epoch ∧
+      (0 < st'.epoch → ∀ fuel, n0 < fuel →
+        trainLoop (c06x_withEpochs a st'.epoch) main side fuel (initSt s0) = some pre) ∧
+      -- both loops `return` with the same loop variables, at the budget
+      (∀ fuel, n0 < fuel → c06x_trainLoopSt a main side fuel (initSt s0) = some fin) ∧
+      (∀ fuel, n0 < fuel → c06x_trainLoopSt a main side fuel (initSt st') = some fin) ∧
+      budgetReached a.budget fin.epoch fin.update fin.sample = true ∧
+      fin.update = countFull a.mainDsLen evs ∧ fin.sample = countMain a.mainDsLen evs := by
+  obtain ⟨hst, _⟩ := ctor_accepted_is_epoch_boundary a sa st' hctor
+  obtain ⟨hB, _, hS, hSN⟩ := C04.ctor_ok_geometry a _ _ hctor
+  have hs0 : s0 = ⟨0, 0, 0⟩ := by
+    have := (C04.ctor_ok a _ s0 hctor0).2.2
+    simp only [startOf, Except.ok.injEq] at this
+    exact this.symm
+  subst hs0
+  have hmain' : ∀ e, spe a ≤ (main e).length := fun e => by rw [hmain e]; exact hSN
+  generalize hE : st'.epoch = e' at hst hbefore ⊢
+  subst hst
+  simp only at hbefore ⊢
+  obtain ⟨evs, evs', pre, f, hl0, hl', hsplit, h1, h2, h3, h4, h5, hf0, hf', hfb, hfu, hfs⟩ :=
+    c06x_resume_l1 a main side hB hS hmain' hmainlt e' hbefore
+  have ht0 := trainLoop_of_l1 a main side hB hS hmain' _ _ _ hl0
+  have ht' := trainLoop_of_l1 a main side hB hS hmain' _ _ _ hl'
+  have hs0 := c06x_trainLoopSt_of_l1 a main side hB hS hmain' _ _ _ hf0
+  have hs' := c06x_trainLoopSt_of_l1 a main side hB hS hmain' _ _ _ hf'
+  refine ⟨evs, evs', pre, stOf f,
+    max (meas a (l1Start main ⟨0, 0, 0⟩)) (meas a (l1Start main ⟨e', upe a * e', spe a * e'⟩)),
+    fun fuel hf => ht0 fuel (by omega), fun fuel hf => ht' fuel (by omega), hsplit, h1, h2, trivial, h3, trivial, h4,
+    ?_, fun fuel hf => hs0 fuel (by omega), fun fuel hf => hs' fuel (by omega), hfb, hfu, hfs⟩
+  intro hpos fuel hf
+  exact trainLoop_of_l1 (c06x_withEpochs a e') main side hB hS hmain' _ _ _ (h5 hpos) fuel (by omega)
+
+/-- **C06, the stream clause, one theorem for `start_epoch`, `start_update`, `start_sample` (and no checkpoint).**
+    For every accepted configuration and every accepted checkpoint strictly before the budget, both the
+    uninterrupted and the resumed loop end, and the uninterrupted stream is `pre ++ resumed stream` where `pre` is
+    pinned down as the part of the uninterrupted run before the checkpoint:
+    * the resumed stream starts with `set_epoch(st'.epoch)` and `pre` announces exactly the epochs `0, …, st'.epoch-1`;
+      hence the cut is at the FIRST `set_epoch(st'.epoch)` of the uninterrupted stream:
+      `resumed = uninterrupted.dropWhile (· ≠ set_epoch(st'.epoch))`, i.e. the same main indices with the same
+      epoch numbers, the same side passes at the same positions and the same end;
+    * `pre` contains exactly `st'.sample = samples_per_epoch · st'.epoch` main samples and
+      `st'.update = updates_per_epoch · st'.epoch` main batches (the checkpoint's counters);
+    * the main-sampler part of `pre` is `set_epoch(0), batches of epoch 0, …, set_epoch(e'-1), batches of epoch e'-1`;
+    * for `st'.epoch > 0`, `pre` is the complete stream of the same configuration run with `epochs = st'.epoch`.
+    The checkpoint `st'.epoch = 0` is included (`pre = []`). -/
+theorem resume_is_the_suffix_after_checkpoint (a : Args) (sa : StartArg) (s0 st' : Start)
+    (hctor0 : ctor a .none = .ok s0) (hctor : ctor a sa = .ok st')
+    (main : Nat → List Nat) (hmain : ∀ e, (main e).length = a.N)
+    (hmainlt : ∀ e x, x ∈ main e → x < a.mainDsLen) (side : Nat → Nat → List Nat)
+    (hbefore : beforeC a.budget st'.epoch st'.update st'.sample) :
+    ∃ (evs evs' pre : List Ev) (n0 : Nat),
+      (∀ fuel, n0 < fuel → trainLoop a main side fuel (initSt s0) = some evs) ∧
+      (∀ fuel, n0 < fuel → trainLoop a main side fuel (initSt st') = some evs') ∧
+      evs = pre ++ evs' ∧
+      evs'.head? = some (Ev.setEpoch st'.epoch) ∧
+      evs' = evs.dropWhile (fun ev => ev != Ev.setEpoch st'.epoch) ∧
+      epochsOf pre = List.range st'.epoch ∧
+      countMain a.mainDsLen pre = st'.sample ∧ st'.sample = spe a * st'.epoch ∧
+      countFull a.mainDsLen pre = st'.update ∧ st'.update = upe a * st'.epoch ∧
+      mainProj a.mainDsLen pre = epochConcat a main 0 st'.epoch ∧
+      (0 < st'.epoch → ∀ fuel, n0 < fuel →
+        trainLoop (c06x_withEpochs a st'.epoch) main side fuel (initSt s0) = some pre) := by
+  obtain ⟨evs, evs', pre, fin, n0, ht0, ht', hsplit, h1, h2, h2', h3, h3', h4, h5, _⟩ :=
+    resume_checkpoint_facts a sa s0 st' hctor0 hctor main hmain hmainlt side hbefore
+  obtain ⟨body, hbody⟩ := c06x_trainLoop_head a main side _ _ _ (ht' (n0 + 1) (by omega))
+  have hE : (initSt st').epoch = st'.epoch := rfl
+  rw [hE] at hbody
+  refine ⟨evs, evs', pre, n0, ht0, ht', hsplit, by rw [hbody]; rfl, ?_, h1, h2, h2', h3, h3', h4, h5⟩
+  rw [hsplit, hbody, c06x_dropWhile_of_split pre body _ h1]
+
+/-- non-vacuity of `resume_is_the_suffix_after_checkpoint` / `resume_checkpoint_facts`: N=5, B=2, drop_last
+    (`samples_per_epoch = 4`, `updates_per_epoch = 2`), updates budget 5 (the run ends in the middle of epoch 2), a
+    side config due every 3 updates whose sampler depends on the update number, an epoch-dependent main sampler.
+    `start_sample = 4`, `start_update = 2` and `start_epoch = 1` are all accepted as the checkpoint `(1, 2, 4)`,
+    which lies before the budget; the resumed stream is the uninterrupted one from `set_epoch(1)` on (side pass
+    `5, 6` after update 3 included), and the part before it is the run with `epochs = 1` = `epochConcat a main 0 1`. -/
+example :
+    let a : Args := ⟨5, 5, 2, true, none, .updates 5, [⟨none, some 3, none, none, 2, 3⟩]⟩
+    let main : Nat → List Nat := fun e => if e % 2 = 0 then [0, 1, 2, 3, 4] else [4, 3, 2, 1, 0]
+    let side : Nat → Nat → List Nat := fun _ u => [u % 3, 1]
+    let evs : List Ev :=
+      [.setEpoch 0, .idx false 0, .idx true 1, .idx false 2, .idx true 3,
+       .setEpoch 1, .idx false 4, .idx true 3, .idx false 5, .idx true 6, .idx false 2, .idx true 1,
+       .setEpoch 2, .idx false 0, .idx true 1]
+    let evs' : List Ev :=
+      [.setEpoch 1, .idx false 4, .idx true 3, .idx false 5, .idx true 6, .idx false 2, .idx true 1,
+       .setEpoch 2, .idx false 0, .idx true 1]
+    let pre : List Ev := [.setEpoch 0, .idx false 0, .idx true 1, .idx false 2, .idx true 3]
+    ctor a .none = .ok ⟨0, 0, 0⟩ ∧ ctor a (.sample 4) = .ok ⟨1, 2, 4⟩ ∧ ctor a (.update 2) = .ok ⟨1, 2, 4⟩ ∧
+    ctor a (.epoch 1) = .ok ⟨1, 2, 4⟩ ∧
+    (∀ e, (main e).length = a.N) ∧ (∀ e x, x ∈ main e → x < a.mainDsLen) ∧
+    beforeC a.budget 1 2 4 ∧
+    trainLoop a main side 10 (initSt ⟨0, 0, 0⟩) = some evs ∧
+    trainLoop a main side 10 (initSt ⟨1, 2, 4⟩) = some evs' ∧
+    evs = pre ++ evs' ∧ evs' = evs.dropWhile (fun ev => ev != Ev.setEpoch 1) ∧
+    epochsOf pre = List.range 1 ∧ countMain a.mainDsLen pre = 4 ∧ countFull a.mainDsLen pre = 2 ∧
+    mainProj a.mainDsLen pre = epochConcat a main 0 1 ∧
+    trainLoop (c06x_withEpochs a 1) main side 10 (initSt ⟨0, 0, 0⟩) = some pre := by
+  refine ⟨rfl, rfl, rfl, rfl, ?_, ?_, by simp [beforeC], by decide, by decide, by decide, by decide, by decide,
+    by decide, by decide, by decide, by decide⟩
+  · intro e; by_cases h : e % 2 = 0 <;> simp [h]
+  · intro e x hx
+    by_cases h : e % 2 = 0 <;> simp [h] at hx ⊢ <;> omega
+
+/-- **C06, "the same stopping point".** Under the same hypotheses: the resumed stream is a (non-empty) suffix of
+    the uninterrupted one, so both end with the same last event; and both `_training_loop`s `return` with the SAME
+    loop variables `fin` (epoch, update, sample, sample_in_epoch, sample_in_update, sample_at_last_update), which
+    have reached the budget; `fin.update` / `fin.sample` are the numbers of main batches / main samples of the
+    uninterrupted stream = the checkpoint's counters plus what the resumed stream contains. -/
+theorem resume_same_stopping_point (a : Args) (sa : StartArg) (s0 st' : Start)
+    (hctor0 : ctor a .none = .ok s0) (hctor : ctor a sa = .ok st')
+    (main : Nat → List Nat) (hmain : ∀ e, (main e).length = a.N)
+    (hmainlt : ∀ e x, x ∈ main e → x < a.mainDsLen) (side : Nat → Nat → List Nat)
+    (hbefore : beforeC a.budget st'.epoch st'.update st'.sample) :
+    ∃ (evs evs' : List Ev) (fin : St) (n0 : Nat),
+      (∀ fuel, n0 < fuel → trainLoop a main side fuel (initSt s0) = some evs) ∧
+      (∀ fuel, n0 < fuel → trainLoop a main side fuel (initSt st') = some evs') ∧
+      evs' <:+ evs ∧ evs' ≠ [] ∧ evs.getLast? = evs'.getLast? ∧
+      (∀ fuel, n0 < fuel → c06x_trainLoopSt a main side fuel (initSt s0) = some fin) ∧
+      (∀ fuel, n0 < fuel → c06x_trainLoopSt a main side fuel (initSt st') = some fin) ∧
+      budgetReached a.budget fin.epoch fin.update fin.sample = true ∧
+      fin.update = countFull a.mainDsLen evs ∧ fin.update = st'.update + countFull a.mainDsLen evs' ∧
+      fin.sample = countMain a.mainDsLen evs ∧ fin.sample = st'.sample + countMain a.mainDsLen evs' := by
+  obtain ⟨evs, evs', pre, fin, n0, ht0, ht', hsplit, _, h2, _, h3, _, _, _, hs0, hs', hfb, hfu, hfs⟩ :=
+    resume_checkpoint_facts a sa s0 st' hctor0 hctor main hmain hmainlt side hbefore
+  have hne : evs' ≠ [] := by
+    intro h
+    have := ht' (n0 + 1) (by omega)
+    rw [h] at this
+    simp only [trainLoop] at this
+    split at this
+    · simp at this
+    · rcases hr : trainLoop a main side n0 _ with _ | rest
+      · rw [hr] at this; simp at this
+      · rw [hr] at this; simp at this
+  refine ⟨evs, evs', fin, n0, ht0, ht', ⟨pre, hsplit.symm⟩, hne, ?_, hs0, hs', hfb, hfu, ?_, hfs, ?_⟩
+  · rw [hsplit, List.getLast?_append, List.getLast?_eq_some_getLast hne]
+    rfl
+  · rw [hfu, hsplit, countFull_append, h3]
+  · rw [hfs, hsplit, countMain_append, h2]
+
+/-- non-vacuity of `resume_same_stopping_point` (same instance as above): both loops return with
+    `epoch = 2, update = 5` (the updates budget), `sample = 10`, two samples into epoch 2, and the same last event;
+    `5 = 2 + 3` main batches, `10 = 4 + 6` main samples -/
+example :
+    let a : Args := ⟨5, 5, 2, true, none, .updates 5, [⟨none, some 3, none, none, 2, 3⟩]⟩
+    let main : Nat → List Nat := fun e => if e % 2 = 0 then [0, 1, 2, 3, 4] else [4, 3, 2, 1, 0]
+    let side : Nat → Nat → List Nat := fun _ u => [u % 3, 1]
+    c06x_trainLoopSt a main side 10 (initSt ⟨0, 0, 0⟩) = some ⟨2, 5, 10, 2, 0, 10⟩ ∧
+    c06x_trainLoopSt a main side 10 (initSt ⟨1, 2, 4⟩) = some ⟨2, 5, 10, 2, 0, 10⟩ ∧
+    budgetReached a.budget 2 5 10 = true ∧
+    (trainLoop a main side 10 (initSt ⟨0, 0, 0⟩)).map (fun evs => (evs.getLast?, countFull 5 evs, countMain 5 evs))
+      = some (some (.idx true 1), 5, 10) ∧
+    (trainLoop a main side 10 (initSt ⟨1, 2, 4⟩)).map (fun evs => (evs.getLast?, countFull 5 evs, countMain 5 evs))
+      = some (some (.idx true 1), 3, 6) := by
+  refine ⟨by decide, by decide, by decide, by decide, by decide⟩
+
+/-- **C06 for `__iter__` itself**: iterating the sampler constructed with an accepted checkpoint strictly before the
+    budget yields exactly the uninterrupted iteration from its first `set_epoch(st'.epoch)` on -/
+theorem iter_resume_is_the_suffix (a : Args) (sa : StartArg) (s0 st' : Start)
+    (hctor0 : ctor a .none = .ok s0) (hctor : ctor a sa = .ok st')
+    (main : Nat → List Nat) (hmain : ∀ e, (main e).length = a.N) (side : Nat → Nat → List Nat)
+    (hbefore : beforeC a.budget st'.epoch st'.update st'.sample) :
+    ∃ (evs evs' : List Ev) (n0 : Nat),
+      (∀ fuel, n0 < fuel → iter a s0 main side fuel = .ok evs) ∧
+      (∀ fuel, n0 < fuel → iter a st' main side fuel = .ok evs') ∧
+      evs' = evs.dropWhile (fun ev => ev != Ev.setEpoch st'.epoch) := by
+  obtain ⟨evs, evs', pre, n0, ht0, ht', _, _, hdw, _⟩ :=
+    resume_stream_is_the_suffix a sa s0 st' hctor0 hctor main hmain side hbefore
+  have hnz : zeroBudget a.budget = false := by
+    unfold beforeC at hbefore
+    unfold zeroBudget
+    cases hbud : a.budget <;> rw [hbud] at hbefore <;> simp only at hbefore ⊢ <;>
+      simp only [beq_eq_false_iff_ne, ne_eq] <;> omega
+  refine ⟨evs, evs', n0, ?_, ?_, hdw⟩
+  · intro fuel hf
+    simp only [iter, hnz, Bool.false_eq_true, if_false, ht0 fuel hf]
+  · intro fuel hf
+    simp only [iter, hnz, Bool.false_eq_true, if_false, ht' fuel hf]
+
+/-- non-vacuity of `iter_resume_is_the_suffix` (same instance; `start_update = 2`) -/
+example :
+    let a : Args := ⟨5, 5, 2, true, none, .updates 5, [⟨none, some 3, none, none, 2, 3⟩]⟩
+    let main : Nat → List Nat := fun e => if e % 2 = 0 then [0, 1, 2, 3, 4] else [4, 3, 2, 1, 0]
+    let side : Nat → Nat → List Nat := fun _ u => [u % 3, 1]
+    ctor a (.update 2) = .ok ⟨1, 2, 4⟩ ∧
+    iter a ⟨0, 0, 0⟩ main side 10 = .ok
+      [.setEpoch 0, .idx false 0, .idx true 1, .idx false 2, .idx true 3,
+       .setEpoch 1, .idx false 4, .idx true 3, .idx false 5, .idx true 6, .idx false 2, .idx true 1,
+       .setEpoch 2, .idx false 0, .idx true 1] ∧
+    iter a ⟨1, 2, 4⟩ main side 10 = .ok
+      [.setEpoch 1, .idx false 4, .idx true 3, .idx false 5, .idx true 6, .idx false 2, .idx true 1,
+       .setEpoch 2, .idx false 0, .idx true 1] := by
+  refine ⟨rfl, rfl, rfl⟩
 
 end KDVerif.C06
